@@ -30,7 +30,9 @@ DropLine(f, i) == RemoveAt(f, i)
 DupLine(f, i) == InsertAt(f, i, f[i])
 SwapLines(f, i) == [f EXCEPT ![i] = f[i + 1], ![i + 1] = f[i]]
 \* a missing comma glues two fields together (with a blank), an extra one makes an empty field
-DropComma(f, i, j) == [f EXCEPT ![i] = SubSeq(f[i], 1, j - 1) \o <<f[i][j] \o " " \o f[i][j + 1]>> \o SubSeq(f[i], j + 2, Len(f[i]))]
+\* (next to an empty field the missing comma just removes the empty field)
+Glue(a, b) == IF a = "" THEN b ELSE IF b = "" THEN a ELSE a \o " " \o b
+DropComma(f, i, j) == [f EXCEPT ![i] = SubSeq(f[i], 1, j - 1) \o <<Glue(f[i][j], f[i][j + 1])>> \o SubSeq(f[i], j + 2, Len(f[i]))]
 ExtraComma(f, i, j) == [f EXCEPT ![i] = InsertAt(f[i], j, "")]
 \* one value more / one value less on one line (the other lines keep their length)
 Longer(f, i) == [f EXCEPT ![i] = Append(f[i], "1")]
